@@ -297,6 +297,9 @@ pub struct Bump<const MIN_ALIGN: usize = 1> {
     // The current chunk we are bump allocating within.
     current_chunk_footer: Cell<NonNull<ChunkFooter>>,
     allocation_limit: Cell<Option<usize>>,
+    // Identity of this arena in API-level traces (0 = not assigned yet).
+    #[cfg(bumpalo_verif)]
+    verif_id: Cell<u64>,
 }
 
 #[repr(C)]
@@ -416,6 +419,8 @@ impl<const MIN_ALIGN: usize> Drop for Bump<MIN_ALIGN> {
         unsafe {
             dealloc_chunk_list(self.current_chunk_footer.get());
         }
+        #[cfg(bumpalo_verif)]
+        crate::__verif::api(crate::__verif::Api::simple(crate::__verif::OP_DROP, 0), self);
     }
 }
 
@@ -424,6 +429,8 @@ unsafe fn dealloc_chunk_list(mut footer: NonNull<ChunkFooter>) {
     while !footer.as_ref().is_empty() {
         let f = footer;
         footer = f.as_ref().prev.get();
+        #[cfg(bumpalo_verif)]
+        crate::__verif::chunk_event(false, f.as_ref().data.as_ptr() as usize, f.as_ref().layout);
         dealloc(f.as_ref().data.as_ptr(), f.as_ref().layout);
     }
 }
@@ -433,6 +440,41 @@ unsafe fn dealloc_chunk_list(mut footer: NonNull<ChunkFooter>) {
 // it, the returned references to allocations borrow the `Bump` and therefore
 // prevent sending the `Bump` across threads until the borrows end.
 unsafe impl<const MIN_ALIGN: usize> Send for Bump<MIN_ALIGN> {}
+
+#[cfg(bumpalo_verif)]
+impl<const MIN_ALIGN: usize> crate::__verif::ArenaView for Bump<MIN_ALIGN> {
+    fn id(&self) -> u64 {
+        if self.verif_id.get() == 0 {
+            self.verif_id.set(crate::__verif::next_arena_id());
+        }
+        self.verif_id.get()
+    }
+    fn min_align(&self) -> usize {
+        MIN_ALIGN
+    }
+    fn allocated_bytes(&self) -> usize {
+        Bump::allocated_bytes(self)
+    }
+    fn allocated_bytes_including_metadata(&self) -> usize {
+        Bump::allocated_bytes_including_metadata(self)
+    }
+    fn chunk_capacity(&self) -> usize {
+        Bump::chunk_capacity(self)
+    }
+    fn allocation_limit(&self) -> Option<usize> {
+        Bump::allocation_limit(self)
+    }
+    fn chunks(&self, f: &mut dyn FnMut(usize, usize, usize)) {
+        unsafe {
+            let mut footer = self.current_chunk_footer.get();
+            while !footer.as_ref().is_empty() {
+                let c = footer.as_ref();
+                f(c.data.as_ptr() as usize, footer.as_ptr() as usize, c.ptr.get().as_ptr() as usize);
+                footer = c.prev.get();
+            }
+        }
+    }
+}
 
 #[inline]
 fn is_pointer_aligned_to<T>(pointer: *mut T, align: usize) -> bool {
@@ -663,6 +705,8 @@ impl<const MIN_ALIGN: usize> Bump<MIN_ALIGN> {
         Bump {
             current_chunk_footer: Cell::new(EMPTY_CHUNK.get()),
             allocation_limit: Cell::new(None),
+            #[cfg(bumpalo_verif)]
+            verif_id: Cell::new(0),
         }
     }
 
@@ -747,6 +791,8 @@ impl<const MIN_ALIGN: usize> Bump<MIN_ALIGN> {
             return Ok(Bump {
                 current_chunk_footer: Cell::new(EMPTY_CHUNK.get()),
                 allocation_limit: Cell::new(None),
+                #[cfg(bumpalo_verif)]
+                verif_id: Cell::new(0),
             });
         }
 
@@ -761,6 +807,17 @@ impl<const MIN_ALIGN: usize> Bump<MIN_ALIGN> {
             .ok_or(AllocErr)?
         };
 
+        #[cfg(bumpalo_verif)]
+        {
+            let bump = Bump {
+                current_chunk_footer: Cell::new(chunk_footer),
+                allocation_limit: Cell::new(None),
+                verif_id: Cell::new(0),
+            };
+            crate::__verif::api(crate::__verif::Api::simple(crate::__verif::OP_NEW, capacity), &bump);
+            return Ok(bump);
+        }
+        #[cfg(not(bumpalo_verif))]
         Ok(Bump {
             current_chunk_footer: Cell::new(chunk_footer),
             allocation_limit: Cell::new(None),
@@ -823,6 +880,8 @@ impl<const MIN_ALIGN: usize> Bump<MIN_ALIGN> {
     /// ```
     pub fn set_allocation_limit(&self, limit: Option<usize>) {
         self.allocation_limit.set(limit);
+        #[cfg(bumpalo_verif)]
+        crate::__verif::api(crate::__verif::Api::simple(crate::__verif::OP_SET_LIMIT, 0), self);
     }
 
     /// How much headroom an arena has before it hits its allocation
@@ -922,6 +981,8 @@ impl<const MIN_ALIGN: usize> Bump<MIN_ALIGN> {
         debug_assert!(size >= requested_layout.size());
 
         let data = alloc(layout);
+        #[cfg(bumpalo_verif)]
+        crate::__verif::chunk_event(true, data as usize, layout);
         let data = NonNull::new(data)?;
 
         // The `ChunkFooter` is at the end of the chunk.
@@ -1003,6 +1064,8 @@ impl<const MIN_ALIGN: usize> Bump<MIN_ALIGN> {
         // borrows active that would get invalidated by resetting.
         unsafe {
             if self.current_chunk_footer.get().as_ref().is_empty() {
+                #[cfg(bumpalo_verif)]
+                crate::__verif::api(crate::__verif::Api::simple(crate::__verif::OP_RESET, 0), self);
                 return;
             }
 
@@ -1040,6 +1103,8 @@ impl<const MIN_ALIGN: usize> Bump<MIN_ALIGN> {
                 "Our chunk's bump finger should be reset to the start of its allocation"
             );
         }
+        #[cfg(bumpalo_verif)]
+        crate::__verif::api(crate::__verif::Api::simple(crate::__verif::OP_RESET, 0), self);
     }
 
     /// Allocate an object in this `Bump` and return an exclusive reference to
@@ -1260,6 +1325,11 @@ impl<const MIN_ALIGN: usize> Bump<MIN_ALIGN> {
                         // (reclaiming any alignment padding we may have
                         // added).
                         current_footer_p.as_ref().set_ptr(rewind_ptr);
+                        #[cfg(bumpalo_verif)]
+                        crate::__verif::api(
+                            crate::__verif::Api::rewind(inner_result_ptr.as_ptr() as usize, Layout::new::<Result<T, E>>()),
+                            self,
+                        );
                     } else {
                         // We allocated a new chunk for this result.
                         //
@@ -1280,6 +1350,11 @@ impl<const MIN_ALIGN: usize> Bump<MIN_ALIGN> {
                         #[cfg(bumpalo_verif)]
                         crate::__verif::footer_store(current_footer_p.as_ptr() as usize, crate::__verif::SITE_REWIND_NEW);
                         current_ptr.set(current_footer_p.cast());
+                        #[cfg(bumpalo_verif)]
+                        crate::__verif::api(
+                            crate::__verif::Api::rewind(inner_result_ptr.as_ptr() as usize, Layout::new::<Result<T, E>>()),
+                            self,
+                        );
                     }
                 }
                 //SAFETY:
@@ -1371,6 +1446,11 @@ impl<const MIN_ALIGN: usize> Bump<MIN_ALIGN> {
                         // (reclaiming any alignment padding we may have
                         // added).
                         current_footer_p.as_ref().set_ptr(rewind_ptr);
+                        #[cfg(bumpalo_verif)]
+                        crate::__verif::api(
+                            crate::__verif::Api::rewind(inner_result_ptr.as_ptr() as usize, Layout::new::<Result<T, E>>()),
+                            self,
+                        );
                     } else {
                         // We allocated a new chunk for this result.
                         //
@@ -1391,6 +1471,11 @@ impl<const MIN_ALIGN: usize> Bump<MIN_ALIGN> {
                         #[cfg(bumpalo_verif)]
                         crate::__verif::footer_store(current_footer_p.as_ptr() as usize, crate::__verif::SITE_REWIND_NEW);
                         current_ptr.set(current_footer_p.cast());
+                        #[cfg(bumpalo_verif)]
+                        crate::__verif::api(
+                            crate::__verif::Api::rewind(inner_result_ptr.as_ptr() as usize, Layout::new::<Result<T, E>>()),
+                            self,
+                        );
                     }
                 }
                 //SAFETY:
@@ -1915,6 +2000,17 @@ impl<const MIN_ALIGN: usize> Bump<MIN_ALIGN> {
     /// Errors if reserving space matching `layout` fails.
     #[inline(always)]
     pub fn try_alloc_layout(&self, layout: Layout) -> Result<NonNull<u8>, AllocErr> {
+        #[cfg(bumpalo_verif)]
+        {
+            let r = if let Some(p) = self.try_alloc_layout_fast(layout) {
+                Ok(p)
+            } else {
+                self.alloc_layout_slow(layout).ok_or(AllocErr)
+            };
+            crate::__verif::api(crate::__verif::Api::alloc(&r, layout), self);
+            return r;
+        }
+        #[cfg(not(bumpalo_verif))]
         if let Some(p) = self.try_alloc_layout_fast(layout) {
             Ok(p)
         } else {
@@ -2285,6 +2381,8 @@ impl<const MIN_ALIGN: usize> Bump<MIN_ALIGN> {
             let ptr = NonNull::new_unchecked(ptr);
             self.current_chunk_footer.get().as_ref().set_ptr(ptr);
         }
+        #[cfg(bumpalo_verif)]
+        crate::__verif::api(crate::__verif::Api::dealloc(ptr.as_ptr() as usize, layout), self);
     }
 
     #[inline]
@@ -2515,6 +2613,17 @@ unsafe impl<'a, const MIN_ALIGN: usize> alloc::Alloc for &'a Bump<MIN_ALIGN> {
         }
 
         let new_layout = layout_from_size_align(new_size, layout.align())?;
+        #[cfg(bumpalo_verif)]
+        {
+            let r = if new_size <= old_size {
+                self.shrink(ptr, layout, new_layout)
+            } else {
+                self.grow(ptr, layout, new_layout)
+            };
+            crate::__verif::api(crate::__verif::Api::realloc(new_size > old_size, &r, ptr.as_ptr() as usize, layout, new_layout), *self);
+            return r;
+        }
+        #[cfg(not(bumpalo_verif))]
         if new_size <= old_size {
             self.shrink(ptr, layout, new_layout)
         } else {
@@ -2546,8 +2655,10 @@ unsafe impl<'a, const MIN_ALIGN: usize> Allocator for &'a Bump<MIN_ALIGN> {
         old_layout: Layout,
         new_layout: Layout,
     ) -> Result<NonNull<[u8]>, AllocError> {
-        Bump::<MIN_ALIGN>::shrink(self, ptr, old_layout, new_layout)
-            .map(|p| unsafe {
+        let r = Bump::<MIN_ALIGN>::shrink(self, ptr, old_layout, new_layout);
+        #[cfg(bumpalo_verif)]
+        crate::__verif::api(crate::__verif::Api::realloc(false, &r, ptr.as_ptr() as usize, old_layout, new_layout), *self);
+        r.map(|p| unsafe {
                 NonNull::new_unchecked(ptr::slice_from_raw_parts_mut(p.as_ptr(), new_layout.size()))
             })
             .map_err(|_| AllocError)
@@ -2560,8 +2671,10 @@ unsafe impl<'a, const MIN_ALIGN: usize> Allocator for &'a Bump<MIN_ALIGN> {
         old_layout: Layout,
         new_layout: Layout,
     ) -> Result<NonNull<[u8]>, AllocError> {
-        Bump::<MIN_ALIGN>::grow(self, ptr, old_layout, new_layout)
-            .map(|p| unsafe {
+        let r = Bump::<MIN_ALIGN>::grow(self, ptr, old_layout, new_layout);
+        #[cfg(bumpalo_verif)]
+        crate::__verif::api(crate::__verif::Api::realloc(true, &r, ptr.as_ptr() as usize, old_layout, new_layout), *self);
+        r.map(|p| unsafe {
                 NonNull::new_unchecked(ptr::slice_from_raw_parts_mut(p.as_ptr(), new_layout.size()))
             })
             .map_err(|_| AllocError)
